@@ -254,17 +254,26 @@ def correspondence(ctx, model_ok, tmp):
                 elif u2 < 0.6:
                     fallback = fbB[k]
                     path = [coll, collB]
-                for api in ("registry", "butler"):
+                for api in ("registry", "butler", "query"):
                     try:
                         if api == "registry":
                             ref = reg.findDataset(dt, instrument="I", detector=k, collections=path, timespan=q)
-                        else:
+                        elif api == "butler":
                             ref = b.find_dataset(dt, instrument="I", detector=k, collections=path, timespan=q)
+                        else:
+                            # the same lookup through the query system: find-first over the path with a temporal constraint
+                            found = b.query_datasets(dt, collections=path, find_first=True, explain=False, bind={"ts": q},
+                                                     where=f"instrument = 'I' AND detector = {k} AND {dt.name}.timespan OVERLAPS ts")
+                            if len(found) > 1:
+                                outs.append(f"err INTERNAL:{len(found)} rows from a find-first query")
+                                continue
+                            ref = found[0] if found else None
                         outs.append("none" if ref is None else f"one {id2i[ref.id]}")
                     except CalibrationLookupError:
                         outs.append("ambiguous")
                     except Exception as e:
                         outs.append(f"err INTERNAL:{type(e).__name__}")
+                        ctx.extra.setdefault("lookup_errors", []).append(f"{api}: nsec={q.nsec} path={path} " + __import__("traceback").format_exc()[-1800:]) if len(ctx.extra.get("lookup_errors", [])) < 3 else None
                 req.append(f"cal lookup {k} {enc_ts(q)}" + ("" if fallback is None else f" {fallback}"))
                 impl.append(outs[0])
                 ctx.evaluations += 1
@@ -273,7 +282,9 @@ def correspondence(ctx, model_ok, tmp):
                 for t in P:
                     if qb <= t < qe:
                         D |= valid[k][t]
-                for api, out in zip(("Registry.findDataset", "Butler.find_dataset"), outs):
+                for api, out in zip(("Registry.findDataset", "Butler.find_dataset", "Butler.query_datasets(find_first)"), outs):
+                    if api.startswith("Butler.query_datasets") and len(D) == 0 and fallback is not None and out in ("none", f"one {fallback}"):
+                        continue  # a RUN further down the path has no timespan: whether an OVERLAPS constraint keeps it is not pinned down
                     okk = (
                         # (a RUN further down the path behaves as valid at every instant: it overlaps any non-empty timespan)
                         (len(D) == 0 and out == ("none" if (fallback is None or qb >= qe) else f"one {fallback}"))
